@@ -866,3 +866,24 @@ def only_reached_from(prog, f, roots, depth=4, _stack=()):
     if not sites:
         return False
     return all(only_reached_from(prog, s.func, roots, depth - 1, _stack + (f.id,)) for s in sites)
+
+
+def guard_dominates(prog, ev, guard_edges, depth=3, _stack=()):
+    """ev is reached only through a guard edge: in its own function (guard_edges(f) -> [(block id, successor index)]), or --
+    when the function is a helper or a lambda -- at every one of its call sites (recursively)."""
+    f = ev.func if not isinstance(ev.func, str) else None
+    if f is None:
+        return False
+    if any(cfg.edge_dominates(f, b, k, ev) for b, k in guard_edges(f)):
+        return True
+    if depth <= 0 or f.id in _stack:
+        return False
+    if f.is_lambda:
+        lid = f.id.split("#in:")[0]
+        parent = prog.funcs.get(f.parent)
+        sites = [c for c in parent.events("call") if (c.get("callee") or "").split("#in:")[0] == lid] if parent is not None else []
+    else:
+        sites = prog.call_sites(f.base)
+    if not sites:
+        return False
+    return all(guard_dominates(prog, s, guard_edges, depth - 1, _stack + (f.id,)) for s in sites)
